@@ -159,7 +159,7 @@ func NewPgWorld(w *kernel.World, rng *kernel.RNG, cfg PgWorldConfig) (*PgWorld, 
 	if err := crypto.InitRegistry(h.KS); err != nil {
 		return nil, err
 	}
-	schema, err := config.MapTableSchemaStoreFromConfig([]byte(cfg.SchemaYAML), false)
+	schema, err := config.MapTableSchemaStoreFromConfig([]byte(cfg.SchemaYAML), cfg.MySQL)
 	if err != nil {
 		return nil, fmt.Errorf("schema config: %w", err)
 	}
